@@ -244,6 +244,102 @@ theorem roundtrip_le_one {W U : Nat} {p : ImpactParams} {d : PoolDelta} {x y : I
         have := roundtrip_crossover_nonpos hvx hvy
         exact ⟨by omega, fun _ => this⟩
 
+/-! ### swap impact with a virtual inventory (`SwapMarketExt::swap_impact_value`) -/
+
+/-- what `swapImpactWithVirtual` returns is the real pool's impact or, only when that is negative, a strictly
+smaller virtual-inventory impact -/
+theorem swapImpact_cases {W U : Nat} {p : ImpactParams} {pl ps : Nat} {virt : Option (Nat × Nat)} {dl ds : Int}
+    {prl prs : Nat} {incl : Bool} {r : Int × BalanceChange}
+    (h : swapImpactWithVirtual W U p pl ps virt dl ds prl prs incl = some r) :
+    ∃ d x bc, PoolDelta.tryNew W pl ps dl ds prl prs = some d ∧ d.priceImpact W U p = some (x, bc) ∧
+      (r = (x, bc) ∨ (x < 0 ∧ r.1 < x)) := by
+  unfold swapImpactWithVirtual at h
+  split at h
+  · cases h
+  · rename_i d hd
+    split at h
+    · cases h
+    · rename_i x bc hx
+      refine ⟨d, x, bc, hd, hx, ?_⟩
+      split at h
+      · cases h; exact .inl rfl
+      · rename_i hc
+        have hneg : x < 0 := by
+          simp only [Bool.or_eq_true, decide_eq_true_eq, Bool.not_eq_true', not_or] at hc
+          omega
+        split at h
+        · cases h; exact .inl rfl
+        · split at h
+          · cases h
+          · split at h
+            · cases h
+            · split at h
+              · rename_i hy; cases h; exact .inr ⟨hneg, hy⟩
+              · cases h; exact .inl rfl
+
+/-- the virtual inventory can only make the impact WORSE: the result never exceeds the real pool's impact -/
+theorem swapImpact_le_real {W U : Nat} {p : ImpactParams} {pl ps : Nat} {virt : Option (Nat × Nat)} {dl ds : Int}
+    {prl prs : Nat} {incl : Bool} {r : Int × BalanceChange} {d : PoolDelta} {x : Int} {bc : BalanceChange}
+    (h : swapImpactWithVirtual W U p pl ps virt dl ds prl prs incl = some r)
+    (hd : PoolDelta.tryNew W pl ps dl ds prl prs = some d) (hx : d.priceImpact W U p = some (x, bc)) :
+    r.1 ≤ x := by
+  obtain ⟨d', x', bc', hd', hx', hr⟩ := swapImpact_cases h
+  rw [hd] at hd'; cases hd'
+  rw [hx] at hx'; cases hx'
+  rcases hr with rfl | ⟨_, hlt⟩
+  · exact Int.le_refl _
+  · omega
+
+/-- **a swap or deposit that does not improve the REAL pool's balance never receives a positive impact**,
+whatever the virtual inventory says -/
+theorem swapImpact_worsened_nonpos {W U : Nat} {p : ImpactParams} {pl ps : Nat} {virt : Option (Nat × Nat)}
+    {dl ds : Int} {prl prs : Nat} {incl : Bool} {r : Int × BalanceChange} {d : PoolDelta} {x : Int} {bc : BalanceChange}
+    (h : swapImpactWithVirtual W U p pl ps virt dl ds prl prs incl = some r)
+    (hd : PoolDelta.tryNew W pl ps dl ds prl prs = some d) (hx : d.priceImpact W U p = some (x, bc))
+    (hbc : bc ≠ .improved) : r.1 ≤ 0 := by
+  have h1 := swapImpact_le_real h hd hx
+  have h2 := priceImpact_worsened_nonpos hx hbc
+  omega
+
+/-- a positive result is always the real pool's own impact -/
+theorem swapImpact_pos_is_real {W U : Nat} {p : ImpactParams} {pl ps : Nat} {virt : Option (Nat × Nat)} {dl ds : Int}
+    {prl prs : Nat} {incl : Bool} {r : Int × BalanceChange}
+    (h : swapImpactWithVirtual W U p pl ps virt dl ds prl prs incl = some r) (hpos : 0 < r.1) :
+    ∃ d, PoolDelta.tryNew W pl ps dl ds prl prs = some d ∧ d.priceImpact W U p = some r := by
+  obtain ⟨d, x, bc, hd, hx, hr⟩ := swapImpact_cases h
+  rcases hr with rfl | ⟨hneg, hlt⟩
+  · exact ⟨d, hd, hx⟩
+  · omega
+
+/-- **round trips stay unprofitable with a virtual inventory**: a balance change and its exact reverse on
+the real pool, each possibly replaced by a worse virtual impact, total at most one unit (F-C03b) -/
+theorem swapImpact_roundtrip_le_one {W U : Nat} {p : ImpactParams} {pl ps pl' ps' : Nat}
+    {v₁ v₂ : Option (Nat × Nat)} {dl ds dl' ds' : Int} {prl prs : Nat} {i₁ i₂ : Bool}
+    {r₁ r₂ : Int × BalanceChange} {d : PoolDelta}
+    (h₁ : swapImpactWithVirtual W U p pl ps v₁ dl ds prl prs i₁ = some r₁)
+    (h₂ : swapImpactWithVirtual W U p pl' ps' v₂ dl' ds' prl prs i₂ = some r₂)
+    (hd : PoolDelta.tryNew W pl ps dl ds prl prs = some d)
+    (hrev : PoolDelta.tryNew W pl' ps' dl' ds' prl prs = some d.rev) :
+    r₁.1 + r₂.1 ≤ 1 := by
+  obtain ⟨d1, x, bc, hd1, hx, _⟩ := swapImpact_cases h₁
+  obtain ⟨d2, y, bc2, hd2, hy, _⟩ := swapImpact_cases h₂
+  rw [hd] at hd1; cases hd1
+  rw [hrev] at hd2; cases hd2
+  have a := swapImpact_le_real h₁ hd hx
+  have b := swapImpact_le_real h₂ hrev hy
+  have c := (roundtrip_le_one hx hy).1
+  omega
+
+/-- non-vacuity: real pool (300, 100) USD; +100 long worsens it (impact −400000); a virtual inventory that is
+even more imbalanced the same way makes it worse, one imbalanced the other way leaves the real impact; an
+improving change keeps its positive impact whatever the virtual inventory says -/
+example :
+    swapImpactWithVirtual 64 (10 ^ 9) ⟨2 * 10 ^ 9, 4, 8⟩ 300 100 none (100 * 10 ^ 9) 0 (10 ^ 9) (10 ^ 9) true = some (-400000, .worsened) ∧
+    swapImpactWithVirtual 64 (10 ^ 9) ⟨2 * 10 ^ 9, 4, 8⟩ 300 100 (some (900, 100)) (100 * 10 ^ 9) 0 (10 ^ 9) (10 ^ 9) true = some (-1360000, .worsened) ∧
+    swapImpactWithVirtual 64 (10 ^ 9) ⟨2 * 10 ^ 9, 4, 8⟩ 300 100 (some (100, 900)) (100 * 10 ^ 9) 0 (10 ^ 9) (10 ^ 9) true = some (-400000, .worsened) ∧
+    swapImpactWithVirtual 64 (10 ^ 9) ⟨2 * 10 ^ 9, 4, 8⟩ 300 100 (some (900, 100)) (-100 * 10 ^ 9) 0 (10 ^ 9) (10 ^ 9) true = some (120000, .improved) := by
+  decide
+
 /-! ### Non-vacuity -/
 example : sameSideImpact 128 (10 ^ 20) ⟨2 * 10 ^ 20, 4 * 10 ^ 11, 8 * 10 ^ 11⟩ (5 * 10 ^ 24) (3 * 10 ^ 24)
     = some 640000000000000000000 := by decide
